@@ -19,6 +19,8 @@ def worker(prop, bdir, variant, lo, hi, profile_kw, oracle_names, salt, plan_fn=
     b = build.Build(variant, bdir)
     ocs = [getattr(oracles, n) for n in oracle_names]
     for i in range(lo, hi):
+        if len(res.violations) >= 8:
+            break                      # enough witnesses from this worker
         rng = core.case_rng(prop, i, salt)
         prof = histories.Profile(**profile_kw)
         label = "%s-%s-%d-%d" % (prop, salt, core.seed(), i)
